@@ -189,6 +189,21 @@ def _held_case(i, rng, tier):
                 break
         c['app_close'] = True
         return {'name': 'violation_after_close', 'held': c, 'via': 'C04'}
+    if rng.random() < 0.25:
+        # no second thread and no second finaliser, but a close() whose
+        # write raises after the kernel took the frame: the Close is on the
+        # wire, the caller saw an error - whatever is sent or closed
+        # afterwards must still be refused (scenario and oracle of C08)
+        for _ in range(400):
+            c = C08.make_case('seeded', rng.randrange(100000), rng, tier)
+            if c['kind'] == 'client_first' and not c.get('prelude') and \
+                    c.get('app_close'):
+                break
+        c['close_write_fails'] = rng.choice(['timeout', 'exc', 'eintr',
+                                             'enobufs'])
+        c['close_write_partial'] = rng.choice([3, 1000000, 1000000])
+        c['send_everywhere'] = True
+        return {'name': 'failed_close_write', 'held': c}
     if rng.random() < 0.4:
         # the other single-threaded history with two writers of the closing
         # flag: close() between Connected and Ready, then the handshake reply
@@ -228,7 +243,9 @@ def _execute_held(case):
     r.violations = [('C12/%s/' % case['name'] + k.split('/', 1)[1], m)
                     for k, m in r.violations
                     if k.split('/')[-1] in ('two_closes', 'data_after_close',
-                                            'send_accepted_after_close')]
+                                            'send_accepted_after_close',
+                                            'send_accepted_after_failed_close',
+                                            'two_closes_after_failed_close')]
     r.stats['probe:old_generator_finalised_while_closing'] += \
         r.stats.get('probe:old_generator_released_mid_handshake', 0)
     return r
